@@ -24,6 +24,10 @@ def load_unit(name):
     return mod.UNIT
 
 
+class NeedsStub(ExtractError):
+    pass
+
+
 class Seg:
     """A piece of generated text with a tag: ('code', file, src_line) or ('spec', label)."""
     def __init__(self, text, tag):
@@ -203,6 +207,8 @@ def _finish_fn(item, sig, body, sig_line, body_line, qual, impl_header, relfile,
         body = '{ unimplemented!() }'
     # ---- body insertions (loops, hints)
     loops = find_loops(body)
+    if not item.get('stub') and len(loops) != len(item.get('loops', {})):
+        raise NeedsStub('%d loop(s) in the body but the contract file knows %d: a loop without invariant cannot be decided by the verifier' % (len(loops), len(item.get('loops', {}))))
     inserts = []  # (offset, order, [Seg])
     for n, lspec in sorted(item.get('loops', {}).items()):
         if n >= len(loops):
@@ -356,7 +362,10 @@ def compute_split(unit, load, env):
         if it.get('impl'):
             s_, ob, cb = rustsrc.find_impl(stripped, it['impl'], it.get('impl_nth', 0))
             lo, hi = ob + 1, cb
-        f = rustsrc.find_fn(stripped, it['name'], lo, hi, it.get('nth', 0))
+        try:
+            f = rustsrc.find_fn(stripped, it['name'], lo, hi, it.get('nth', 0))
+        except ExtractError:
+            continue
         bodies[it['name']] = stripped[f['body_open']:f['body_close'] + 1]
         st = [f_ for f_, _t in env['structs'][it['engine']]]
         used = [f_ for f_ in st if re.search(r'\bself\s*\.\s*%s\b' % f_, bodies[it['name']])]
@@ -365,6 +374,8 @@ def compute_split(unit, load, env):
     while changed:
         changed = False
         for it in items:
+            if it['name'] not in bodies:
+                continue
             for (eng, h), info in list(split.items()):
                 if eng == it['engine'] and h != it['name'] and re.search(r'\bself\s*\.\s*%s\s*\(' % h, bodies[it['name']]):
                     mine = split[(eng, it['name'])]['fields']
@@ -401,9 +412,10 @@ def gen_typedef(item, stripped, relfile, log):
     return segs
 
 
-def generate(unit_name, repo=None, force_stub=()):
+def generate(unit_name, repo=None, force_stub=(), workdir=None):
     repo = repo or REPO
     unit = load_unit(unit_name)
+    auto_stubbed = {}
     log = []
     dropped_hints = []
     out = []  # Segs
@@ -447,12 +459,28 @@ def generate(unit_name, repo=None, force_stub=()):
         if kind in ('struct', 'enum'):
             out += gen_typedef(item, stripped, item['file'], log)
         elif kind == 'fn':
-            if item.get('label', item['name']) in force_stub:
+            lbl = item.get('label', item['name'])
+            if lbl in force_stub:
                 item = dict(item, stub=True)
                 item.pop('loops', None)
                 item.pop('hints', None)
-            out += gen_fn(item, src, stripped, item['file'], log, dropped_hints, env)
-            functions.append(item.get('label', item['name']))
+            try:
+                out += gen_fn(item, src, stripped, item['file'], log, dropped_hints, env)
+            except NeedsStub as e:
+                # the function changed shape in a way no contract covers (e.g. a new loop without invariant): it cannot be
+                # decided deductively; keep its contract as an external_body stub so that callers are still verified
+                auto_stubbed[lbl] = str(e)
+                item = dict(item, stub=True)
+                item.pop('loops', None)
+                item.pop('hints', None)
+                out += gen_fn(item, src, stripped, item['file'], log, dropped_hints, env)
+            except ExtractError as e:
+                if 'not found' in str(e) and 'sig_text' not in item:
+                    # the function no longer exists (inlined / renamed): nothing to verify, its obligations are undecided
+                    auto_stubbed[lbl] = 'function no longer exists in the source: %s' % e
+                    continue
+                raise
+            functions.append(lbl)
         else:
             raise ExtractError('unknown item kind %r' % kind)
         out.append(Seg('\n', ('spec', 'sep')))
@@ -474,8 +502,9 @@ def generate(unit_name, repo=None, force_stub=()):
                 else:
                     cur.append(s.tag)
     linemap.append(_pick(cur))
-    os.makedirs(WORK, exist_ok=True)
-    base = os.path.join(WORK, unit_name)
+    wd = workdir or WORK
+    os.makedirs(wd, exist_ok=True)
+    base = os.path.join(wd, unit_name)
     open(base + '.rs', 'w').write(text)
     json.dump(dict(linemap=linemap, rules=log, dropped_hints=dropped_hints, functions=functions), open(base + '.map.json', 'w'))
     with open(base + '.audit.txt', 'w') as fh:
@@ -484,7 +513,7 @@ def generate(unit_name, repo=None, force_stub=()):
             fh.write('%s line %s [%s]\n    - %s\n    + %s\n' % (e.get('item'), e['line'], e['rule'], e['old'], e['new']))
         for d in dropped_hints:
             fh.write('DROPPED HINT %s::%s (%s)\n' % (d['item'], d['hint'], d['reason']))
-    return dict(path=base + '.rs', linemap=linemap, rules=log, dropped_hints=dropped_hints, unit=unit, functions=functions)
+    return dict(path=base + '.rs', linemap=linemap, rules=log, dropped_hints=dropped_hints, unit=unit, functions=functions, auto_stubbed=auto_stubbed)
 
 
 def _pick(tags):
